@@ -1345,6 +1345,50 @@ def model_round5(ctx, rng, nprng, quick):
             first = next(cn for cn in range(N) if frac_rank(Xc[:cn + 1]) == cn)
             return None if first == cc else f"failing column {cc}, first dependent series {first}"
         cor.add(f"pcorr {T} {N} {flat_series_major(d)}", compare)
+
+    # ---- (3) reordered series: the partial-correlation matrix is permuted consistently ---------
+    # (theorem partial_correlation_relabel; on the implementation: model-free relation)
+    pend = {}
+    for c in range(16 if quick else 150):
+        N = rng.choice([3, 4, 5, 6])
+        T = rng.randrange(N + 6, 30)
+        d = nprng.randint(-4, 5, size=(T, N)).astype(float)
+        if rng.random() < 0.4:
+            d[:, N - 1] = d[:, 0] + nprng.randint(-1, 2, size=T)
+        for i in range(N):
+            if np.ptp(d[:, i]) == 0:
+                d[rng.randrange(T), i] += 1.0
+        if np.linalg.cond(np.corrcoef(d.T)) > 1e3:
+            ctx.count("data:partial_reorder:ill_conditioned_skipped")
+            continue
+        perm = list(range(N))
+        while perm == list(range(N)):
+            rng.shuffle(perm)
+        dp = d[:, perm]
+        lay = rng.choice(["f64C", "f64F"])
+        mk = (lambda a: np.asfortranarray(a)) if lay.endswith("F") else (lambda a: np.ascontiguousarray(a))
+        with quiet():
+            g0 = np.asarray(net.calculate_similarity_measure(mk(d - d.mean(axis=0))), dtype=float)
+            g1 = np.asarray(net.calculate_similarity_measure(mk(dp - dp.mean(axis=0))), dtype=float)
+        ctx.case(("pcorr-reorder", T, N, tuple(perm), lay, d.tobytes().hex()), True)
+        ctx.count(f"oracle:partial_correlation_reordered:N={N}")
+        exp = g0[np.ix_(perm, perm)]
+        if not np.all(np.abs(g1 - exp) <= 1e-7):
+            ctx.fail({"kind": "climate", "class": "PartialCorrelationClimateNetwork", "check": "reordered",
+                      "input_class": f"N={N}:{lay}"},
+                     "reordering the series does not permute the partial-correlation matrix consistently",
+                     {"data": lst(d), "perm": perm, "layout": lay, "observed": lst(g1), "expected": lst(exp)})
+        cor.add(f"pcorr {T} {N} {flat_series_major(d)}", lambda m, c=c: pend.__setitem__(c, m))
+
+        def cmp_perm(m, c=c, N=N, perm=perm):
+            m0 = pend.get(c)
+            if m0 is None or m0.startswith("singular") or m.startswith("singular"):
+                return f"model: singular on well-conditioned data ({str(m0)[:40]} / {m[:40]})"
+            a = m0.split("|")[1].split(",")
+            b = m.split("|")[1].split(",")
+            want = [a[perm[i] * N + perm[j]] for i in range(N) for j in range(N)]
+            return None if b == want else f"model on reordered data {b} is not the permuted matrix {want}"
+        cor.add(f"pcorr {T} {N} {flat_series_major(dp)}", cmp_perm)
     return cor.run()
 
 # --------------------------------------------------------------------------
